@@ -1,23 +1,26 @@
-from cacheprops import CACHE_TB, CACHE_ASSUMPTIONS, ca_component
+from cacheprops import CACHE_TB, CACHE_ASSUMPTIONS, ca_component, MD_COMPONENT, MD_TB, MD_COUNTER_THEOREMS
 from c15_latency_part import LAT_PROP
 
 import facts
 
 ID = "C15"
 PROP = {
-    "modules": ["Gnmi.Props.C15"],
+    "modules": ["Gnmi.Props.C15", "Gnmi.Props.C14Meta"],
     "theorems": ["Gnmi.C15." + t for t in [
         "leafcount_truthful", "update_accounting", "empty_accounting", "latest_step",
-        "gnmiUpdate1_cnt", "updateCore_cnt"]] + ["Gnmi.Cache.run_sinv"],
-    "components": [ca_component("", 1500, 20000)],
+        "gnmiUpdate1_cnt", "updateCore_cnt"]] + ["Gnmi.Cache.run_sinv"] + MD_COUNTER_THEOREMS,
+    "components": [ca_component("", 1500, 20000), MD_COMPONENT],
     "monitor": "spec", "level": "proof",
-    "trusted_base": CACHE_TB, "assumptions": CACHE_ASSUMPTIONS,
+    "trusted_base": CACHE_TB + MD_TB, "assumptions": CACHE_ASSUMPTIONS,
     "manifest": {
         "level_text": "Lean 4 theorems over the cache model: leafcount_truthful (in every state reachable by any history of notifications and "
                       "lifecycle calls, targetLeaves = number of non-metadata leaves stored = added - deleted), update_accounting (each submitted "
                       "update unit bumps exactly one of updated/suppressed/stale/future or is an error that bumps none), empty_accounting, "
                       "latest_step (latestTimestamp moves only to the max with an accepted, non-metadata notification's timestamp). Tied to the code "
-                      "by the ca correspondence observing Metadata() after every step. Latency and race clauses: see level_note.",
+                      "by the ca correspondence observing Metadata() after every step. The counters themselves (metadata.Metadata AddInt/SetInt/"
+                      "GetInt/ResetEntry/Clear) are modelled on their own: addInt_sums / getInt_after_setInt / getInt_after_reset (GetInt = value "
+                      "established by the last SetInt or reset + the int64 sum of the AddInt calls since, over any history that leaves the "
+                      "counter's registration alone), tied to metadata/metadata.go by the md correspondence. Latency and race clauses: see level_note.",
         "level_note": "Trusted: Lean kernel; model validated by the ca correspondence. The latency-window clause and the unsynchronised-access clause "
                       "is decided by " + LAT_PROP["level_text_part"] + " The unsynchronised-access clause is decided by the -race stress step "
                       "and the lockset facts when present in the obligation list of the evidence.",
